@@ -43,7 +43,7 @@ type c14Req struct {
 	Timeout time.Duration
 }
 
-var c14Mods = []string{"ps", "pgp", "jar", "cat", "pe-coff", "msi", "appmanifest"}
+var c14Mods = []string{"ps", "pgp", "jar", "cat", "pe-coff", "msi", "appmanifest", "vsix", "mach-o"}
 
 // c14Isolation runs N concurrent clients against one server.  scheduled=false
 // is the free-running variant used under the race detector.
